@@ -420,7 +420,7 @@ class Engine:
             # the file is not read through the seam: no vantage point
             out["probes"]["rawfile_reads_not_observable"] = 1
             return None
-        if not rawfile and (src.reads_after_eof or src.eof_returned != 1):
+        if not rawfile and (src.reads_after_eof or src.eof_returned > 1):
             # ("the source" of the statement is the audio source; how often
             # a file source asks its FILE for more after the end is not
             # judged)
@@ -469,12 +469,19 @@ class Engine:
                         break
                 d = nwin if eof else njudged - 1
                 msg = self._latency(i, s_, e_, d, nwin, mx, ms, seen, ms)
-                if msg and eof and njudged == nwin:
-                    # a reader that completes a ragged last frame meets the
-                    # end of the source while the LAST frame is in flight:
-                    # that frame may have decided the token
-                    msg = self._latency(i, s_, e_, nwin - 1, nwin, mx, ms,
-                                        seen, ms)
+                if msg and njudged == nwin:
+                    # every frame of the stream has been judged: whether the
+                    # token was decided by the LAST frame or by the end of
+                    # the stream cannot be told from outside (a reader that
+                    # completes a ragged last frame meets the end while that
+                    # frame is in flight; one that knows the length of its
+                    # input, or latches on a short block, never asks for the
+                    # end at all) - either is accepted
+                    for d_ in (nwin - 1, nwin):
+                        msg = self._latency(i, s_, e_, d_, nwin, mx, ms,
+                                            seen, ms)
+                        if not msg:
+                            break
                 if msg:
                     return V("C08.6", "split() over %s, region %d: %s" % (
                         "an overlapping reader (hop %d of %d samples)" % (
@@ -566,6 +573,7 @@ class Engine:
             def __init__(self):
                 self.got = []
                 self.sent = []
+                self.senders = []
                 super().__init__(timeout=0.2)
 
             def _process_message(self, message):
@@ -577,6 +585,8 @@ class Engine:
                 if isinstance(message, tuple):
                     c_ = res["cnt"]
                     self.sent.append((c_["frames"], c_["eof"]))
+                    me_ = sim.me()
+                    self.senders.append(me_.role if me_ is not None else "?")
                 return super().send(message)
 
         def main():
@@ -639,7 +649,7 @@ class Engine:
             res.clear()
             return None
         src3 = res["src"]
-        if src3.reads_after_eof or src3.eof_returned != 1:
+        if src3.reads_after_eof or src3.eof_returned > 1:
             return V("C08.3", "pipeline: end of stream returned %d time(s), "
                      "%d read(s) after it" % (src3.eof_returned,
                                               src3.reads_after_eof),
@@ -671,6 +681,12 @@ class Engine:
         if not res.get("cnt", {}).get("calls"):
             # the worker does not pull through its read(): no vantage point
             out["probes"]["l3_worker_read_not_used"] = 1
+        elif any(not str(r_).startswith("TokenizerWorker")
+                 for r_ in res["obs"].senders):
+            # detections are passed on by another thread than the one that
+            # consumes the generator: neither send() nor the growth of the
+            # `detections` list says when the item reached the worker
+            out["probes"]["l3_handover_in_another_thread_not_judged"] = 1
         elif len(toks) == len(sent):
             first_seen = res.get("first_seen", {})
             for i, (tok, (frames, eof)) in enumerate(zip(toks, sent)):
@@ -681,10 +697,13 @@ class Engine:
                 at[i] = d + 1
                 msg = self._latency(i, tok[1], tok[2], d, nwin, params["mx"],
                                     params["ms"], valid3, params["ms"])
-                if msg and eof and frames == nwin:
-                    msg = self._latency(i, tok[1], tok[2], nwin - 1, nwin,
-                                        params["mx"], params["ms"], valid3,
-                                        params["ms"])
+                if msg and frames == nwin:
+                    for d_ in (nwin - 1, nwin):
+                        msg = self._latency(i, tok[1], tok[2], d_, nwin,
+                                            params["mx"], params["ms"],
+                                            valid3, params["ms"])
+                        if not msg:
+                            break
                 if msg:
                     return V("C08.6", "pipeline: %s" % msg,
                              "C08.6:pipe_latency")
